@@ -592,6 +592,67 @@ func c17Work(ctx *core.Ctx, part string) {
 		cs.Flush(lc)
 	})
 
+	// use, reconfigure, use again ---------------------------------------------------
+	// One construct, one policy: the policy sanitises the probe, one switch-like call changes a
+	// setting, the policy sanitises the very same probe again and must answer like a policy that
+	// was built with the final settings and never used. A verdict remembered from the first call
+	// (a last-value memo, a per-value cache) that the reconfiguring call does not invalidate is
+	// only visible when the same value is the next one asked about - which the random histories,
+	// using a hundred probes in a row, practically never arrange.
+	if part != "sequential" {
+		base := []spec.Op{{K: spec.KNew}, {K: spec.KAllowElements, Names: []string{"a", "area", "img", "iframe", "p", "b", "span", "blockquote", "audio"}},
+			{K: spec.KAllowAttrs, Attrs: []string{"href", "src", "cite", "sandbox", "title", "rel", "target", "crossorigin"}, Scope: "global"},
+			{K: spec.KSchemes, Names: []string{"http", "https"}}}
+		sw := func(n string, b bool) spec.Op { return spec.Op{K: spec.KSwitch, Names: []string{n}, B: b} }
+		var steps [][2]spec.Op
+		for _, n := range []string{spec.SwRelative, spec.SwParseable, spec.SwNoFollow, spec.SwNoFollowFQ, spec.SwNoReferrer, spec.SwNoReferrerFQ, spec.SwTargetBlank, spec.SwCrossOrigin, spec.SwAddSpaces} {
+			steps = append(steps, [2]spec.Op{sw(n, true), sw(n, false)}, [2]spec.Op{sw(n, false), sw(n, true)})
+		}
+		steps = append(steps,
+			[2]spec.Op{{K: spec.KSandbox, Ints: []int{2, 10}}, {K: spec.KSandbox, Ints: []int{2}}},
+			[2]spec.Op{{K: spec.KSandbox, Ints: []int{2}}, {K: spec.KSandbox, Ints: []int{2, 10}}},
+			[2]spec.Op{{K: spec.KSkip, Names: []string{"b"}}, {K: spec.KKeep, Names: []string{"b"}}},
+			[2]spec.Op{{K: spec.KKeep, Names: []string{"b"}}, {K: spec.KSkip, Names: []string{"b"}}},
+			[2]spec.Op{{K: spec.KSchemeCustom, Names: []string{"http"}, Check: "always"}, {K: spec.KSchemeCustom, Names: []string{"http"}, Check: "never"}},
+			[2]spec.Op{{K: spec.KSchemeCustom, Names: []string{"http"}, Check: "never"}, {K: spec.KSchemeCustom, Names: []string{"http"}, Check: "always"}},
+			[2]spec.Op{{K: spec.KSchemeCustom, Names: []string{"http"}, Check: "never"}, {K: spec.KSchemes, Names: []string{"http"}}},
+			[2]spec.Op{sw(spec.SwRelative, false), {K: spec.KSchemes, Names: []string{"ftp"}}},
+			[2]spec.Op{sw(spec.SwRelative, true), {K: spec.KDataAttrs}},
+			[2]spec.Op{sw(spec.SwRelative, true), {K: spec.KComments}},
+			[2]spec.Op{sw(spec.SwRelative, true), {K: spec.KAllowAttrs, Attrs: []string{"alt", "id"}, Scope: "global"}},
+			[2]spec.Op{sw(spec.SwRelative, true), {K: spec.KAllowElements, Names: []string{"u", "q"}}})
+		reProbes := []string{`<a href="/rel">x</a>`, `<a href="http://example.org/">x</a>`, `<a href="https://example.org/a?b=c" rel="x" target="_self">x</a>`,
+			`<img src="/local/pic.png">`, `<img src="https://example.org/i.png" alt="i" id="k">`, `<blockquote cite="/c">q</blockquote>`, `<audio src="rel.ogg"></audio>`,
+			`<iframe sandbox="allow-forms allow-scripts" src="https://example.org/"></iframe>`, `<iframe sandbox="allow-scripts"></iframe>`,
+			`<p>a<b>c</b>d<u>e</u><q cite="/q">f</q></p>`, `<a href="ftp://example.org/f">x</a>`, `<span data-x="1" title="t">s</span><!-- c -->`, `<area href="//example.org/x">`}
+		ctx.Run("use-reconfigure-reuse", len(steps), func(cs *core.Case) {
+			st := steps[cs.Index]
+			lc := core.LocalCounts{}
+			final := append(append(append([]spec.Op{}, base...), st[0]), st[1])
+			fresh := spec.Build(final)
+			for _, uses := range []int{1, 2} {
+				for _, p := range reProbes {
+					pol := spec.Build(append(append([]spec.Op{}, base...), st[0]))
+					for u := 0; u < uses; u++ {
+						pol.Sanitize(p)
+					}
+					pol = spec.Apply(pol, st[1], nil)
+					got, want := pol.Sanitize(p), fresh.Sanitize(p)
+					cs.Eval()
+					lc["use_reconfigure_reuse_comparisons"]++
+					if got != want {
+						cs.Violate("C17:history:use-then-reconfigure:"+firstDiffToken(got, want), fmt.Sprintf("a policy that sanitised an input, was reconfigured with %s and sanitised the same input again differs from a policy built with the final settings and never used: used=%q fresh=%q input=%q", spec.Describe([]spec.Op{st[1]})[0], core.Clip(got, 200), core.Clip(want, 200), p),
+							map[string]interface{}{"history": spec.Describe(final), "ops": final, "input": core.Show(p), "used_policy_output": core.Show(got), "fresh_policy_output": core.Show(want)})
+					}
+					if got != fresh.Sanitize(`<p>x</p>`) && strings.Contains(got, "<") {
+						cs.Nontrivial(core.Hash("reconf", fmt.Sprint(cs.Index), p))
+					}
+				}
+			}
+			cs.Flush(lc)
+		})
+	}
+
 	// independence ---------------------------------------------------------------
 	refUGC := map[string]string{}
 	refStrict := map[string]string{}
